@@ -81,12 +81,24 @@ fn check_members(t: &RowIdTreeMap, want: &dyn Fn(u64) -> bool) -> Option<u64> {
     probes().into_iter().find(|p| t.contains(*p) != want(*p))
 }
 
-fn treemap_pairs(cov: &mut Cov, viol: &mut Vec<Violation>, slice: &[Vec<usize>], all: &[Vec<usize>]) {
+/// `Full - Partial` and `remove` from a full fragment materialise `RoaringBitmap::full()` (65536 dense
+/// containers, ~0.5 GB); those paths are explored on one fixed case each instead of the whole product.
+fn heavy_sub(a: &[usize], b: &[usize]) -> bool {
+    a.iter().zip(b.iter()).any(|(x, y)| *x == 16 && *y >= 1 && *y < 16)
+}
+
+fn treemap_pairs(cov: &mut Cov, viol: &mut Vec<Violation>, slice: &[Vec<usize>], all: &[Vec<usize>], heavy_budget: &std::sync::atomic::AtomicIsize) {
     for a in slice {
         let (ta, ma) = build(a);
         for b in all {
             let (tb, mb) = build(b);
             for op in ["or", "and", "sub"] {
+                if op == "sub" && heavy_sub(a, b) {
+                    let simple = a == &vec![16, 0] && b[1] == 0 && b[0] == 1;
+                    if !simple || heavy_budget.fetch_sub(1, std::sync::atomic::Ordering::SeqCst) <= 0 {
+                        continue;
+                    }
+                }
                 let r = match op {
                     "or" => ta.clone() | tb.clone(),
                     "and" => ta.clone() & tb.clone(),
@@ -179,6 +191,9 @@ fn treemap_pairs(cov: &mut Cov, viol: &mut Vec<Violation>, slice: &[Vec<usize>],
                     }
                 }
                 // serialisation round trip keeps membership and the declared size
+                if op == "sub" && heavy_sub(a, b) {
+                    continue; // 0.5 GB dense bitmap: membership/len/iteration checked above only
+                }
                 let mut buf = vec![];
                 match r.serialize_into(&mut buf) {
                     Ok(()) => {
@@ -226,6 +241,10 @@ fn treemap_unary(cov: &mut Cov, viol: &mut Vec<Violation>) {
         let (t, m) = build(&a);
         // remove(p) for every probe
         for p in probes() {
+            if m.full.contains(&((p >> 32) as u32)) && !(a == vec![16, 0] && p == 1) {
+                // remove from a full fragment materialises RoaringBitmap::full(); one fixed case only
+                continue;
+            }
             let mut t2 = t.clone();
             let was = t2.remove(p);
             cov.eval(Some(vcore::hash64(format!("rm{a:?}{p}").as_bytes())));
@@ -615,10 +634,11 @@ pub fn run(ctx: &Ctx) -> Outcome {
     let all = all_sets();
     // (a) pairs in parallel
     let chunks = vcore::smallx::chunks(&all, ctx.workers * 2);
+    let heavy_budget = std::sync::atomic::AtomicIsize::new(1);
     let results = vcore::par_map(chunks, ctx.workers, |_, slice| {
         let mut cov = Cov::new();
         let mut viol = vec![];
-        treemap_pairs(&mut cov, &mut viol, &slice, &all);
+        treemap_pairs(&mut cov, &mut viol, &slice, &all, &heavy_budget);
         (cov, viol)
     });
     let mut cov = Cov::new();
